@@ -225,6 +225,7 @@ impl Prop for C07 {
     }
     fn check(&self, case: &ParCase) -> Outcome {
         let mut out = Outcome::new();
+        crate::props::c08::poison_shortest_path_state(case.sel >> 3, 4);
         if let Some(bn) = case.big_n {
             return self.check_big(case, bn as usize);
         }
